@@ -21,7 +21,7 @@ from __future__ import annotations
 import ast
 from dataclasses import dataclass
 
-from .model import AnalysisError
+from .model import AnalysisError, Unsupported
 
 MAX_PATHS = 6000
 
@@ -113,7 +113,7 @@ class _Enum:
             states = new
             self.count = max(self.count, len(states))
             if len(states) > MAX_PATHS:
-                raise AnalysisError(f'too many paths in {getattr(self.fn, "name", "?")}')
+                raise Unsupported(f'too many paths in {getattr(self.fn, "name", "?")}')
         return states
 
     def stmt(self, st, ev):
@@ -171,10 +171,10 @@ class _Enum:
         if isinstance(st, ast.Try) or type(st).__name__ == 'TryStar':
             return self.try_(st, ev)
         if isinstance(st, ast.Match):
-            raise AnalysisError('match statement is not supported')
+            raise Unsupported('match statement is not supported')
         if isinstance(st, _SIMPLE):
             return [(ev + [Ev('stmt', st)], 'next')]
-        raise AnalysisError(f'unsupported statement {type(st).__name__}')
+        raise Unsupported(f'unsupported statement {type(st).__name__}')
 
     def try_(self, st, ev):
         n0 = len(ev)
@@ -245,7 +245,7 @@ def enumerate_paths(fn_node) -> list:
         if status == 'next':
             status = 'fall'
         elif status in ('break', 'continue'):
-            raise AnalysisError('break/continue outside loop')
+            raise Unsupported('break/continue outside loop')
         out.append(Path(ev, status))
     _cache[key] = out
     return out
